@@ -29,6 +29,8 @@ def A(fam, i, k, K):
         return ((k + i) % 4) - 1
     if fam == "big8":
         return 384 if (i + k) % 2 == 0 else -320
+    if fam == "bigf":
+        return 128
     return 127 if (i + k) % 2 == 0 else -128
 
 
@@ -41,6 +43,8 @@ def W8(fam, j, k):
         return ((j + k) % 3) - 1
     if fam == "big8":
         return -384 if (j + k) % 3 == 0 else 256
+    if fam == "bigf":
+        return 127 - (j % 3)
     return -128 if (j + k) % 3 == 0 else 127
 
 
